@@ -14,6 +14,7 @@ class Table:
         self.columns: List[str] = []
         self.pk: List[str] = []
         self.fks: List[Tuple[Tuple[str, ...], str, Tuple[str, ...]]] = []   # (cols, ref table, ref cols)
+        self.uniques: List[List[str]] = []
         self.line = 0
 
 
@@ -63,6 +64,7 @@ class Schema:
         self.inserts: List[Insert] = []
         self.selects: List[Select] = []
         self.others: List[Tuple[int, str]] = []
+        self.unique_indexes: List[Tuple[str, List[str], int]] = []
         self.unparsed: List[Tuple[int, str]] = []
         for n in ast.walk(m.tree):
             if isinstance(n, ast.Call) and isinstance(n.func, ast.Attribute) and n.func.attr in ("sql", "execute", "executemany", "executescript") \
@@ -80,6 +82,11 @@ class Schema:
             self._insert(toks, low, node)
         elif low[0] == "select":
             self._select(toks, low, node)
+        elif low[:3] == ["create", "unique", "index"] and "on" in low:
+            o = low.index("on")
+            cols = [x for x in toks[o + 2:] if x not in "(),"]
+            self.unique_indexes.append((toks[o + 1], cols, node.lineno))
+            self.others.append((node.lineno, " ".join(low[:3])))
         elif low[0] in ("pragma", "begin", "commit", "create", "rollback", "end"):
             self.others.append((node.lineno, " ".join(low[:3])))
         else:
@@ -119,13 +126,20 @@ class Schema:
                 rt = part[r + 1]
                 rcols = tuple(x for x in part[r + 2:] if x not in "(),")
                 t.fks.append((cols, rt, rcols))
-            elif pl[0] in ("unique", "check", "constraint"):
+            elif pl[0] == "unique":
+                t.uniques.append([x for x in part[1:] if x not in "(),"])
+            elif pl[0] in ("check", "constraint"):
+                if "unique" in pl:
+                    u = pl.index("unique")
+                    t.uniques.append([x for x in part[u + 1:] if x not in "(),"])
                 continue
             else:
                 col = part[0]
                 t.columns.append(col)
                 if "primary" in pl and "key" in pl:
                     t.pk = [col]
+                if "unique" in pl:
+                    t.uniques.append([col])
                 if "references" in pl:
                     r = pl.index("references")
                     rcols = tuple(x for x in part[r + 2:] if x not in "(),")
